@@ -51,6 +51,9 @@ def gen_cases(tier, seed):
                         yield dict(base, sel='lookup', limit=None, fail=list(fail), exc=exc, cons='drain')
                 for limit in (None, 1, 2):
                     yield dict(base, sel='lookup', limit=limit, fail=[], exc='msg', cons='drain')
+                for bad in range(n):   # the extractor of the category fails for ONE recording (results kept in the comparison: extraction also runs in the studio's process)
+                    yield dict(base, sel='ids', perm=list(range(n)), fail=[], exc='msg', cons='drain', bad_extract=bad)
+                    yield dict(base, sel='lookup', limit=None, fail=[], exc='msg', cons='drain', bad_extract=bad)
                 if n >= 2:
                     counts = [list(assign).count(c) for c in range(3)]
                     present = [c for c in range(3) if counts[c]]
@@ -75,7 +78,7 @@ def run_case(case):
 def _run(case, box):
     from playback.studio.studio import PlaybackStudio
     from playback.studio.equalizer_tuning import EqualizerTuning, EqualizerTuner
-    from playback.studio.equalizer import EqualityStatus, ComparatorResult
+    from playback.studio.equalizer import EqualityStatus, ComparatorResult, CompareExecutionConfig
     from playback.studio.recordings_lookup import RecordingLookupProperties
     P.RT.reset()
     env = P.Env(inner=box.cassette, name='Op')
@@ -87,6 +90,9 @@ def _run(case, box):
         ids.append(r.rec_id)
     by_cat = {c: [rid for rid, ci in zip(ids, case['assign']) if CATS[ci] == c] for c in CATS}
     journal = []
+    current = {}
+    bad_id = ids[case['bad_extract']] if case.get('bad_extract') is not None else None
+    cfg = CompareExecutionConfig(keep_results_in_comparison=True) if bad_id is not None else None
     fail = {CATS[i] for i in case['fail']}
     raised = {}
 
@@ -100,6 +106,8 @@ def _run(case, box):
 
             def pf(recording):
                 journal.append(('play', category, recording.id))
+                current['id'] = recording.id
+                current['n'] = 0
                 env.bind()
                 P.RT.mode = 'replay'
                 try:
@@ -109,6 +117,10 @@ def _run(case, box):
 
             def extractor(outputs):
                 journal.append(('extract', category))
+                if bad_id is not None and current.get('id') == bad_id:
+                    current['n'] = current.get('n', 0) + 1
+                    if current['n'] > 2:   # fine while comparing, fails when the results are extracted again to be kept
+                        raise KeyError('cannot extract ' + bad_id)
                 return [o.value for o in outputs if P.OP_ALIAS in o.key]
 
             def comparator(a, b):
@@ -122,13 +134,13 @@ def _run(case, box):
     env.tr.tape_cassette = box.fresh()
     if case['sel'] == 'ids':
         sel = [ids[i] for i in case['perm']]
-        studio = PlaybackStudio(CATS, Tuner(), env.tr, recording_ids=sel)
+        studio = PlaybackStudio(CATS, Tuner(), env.tr, recording_ids=sel, compare_execution_config=cfg)
         exp_cats = sorted({CATS[case['assign'][i]] for i in case['perm']})
         exp_ids = {c: [rid for rid in sel if rid in by_cat[c]] for c in exp_cats}
     else:
         props = RecordingLookupProperties(start_date=NOW - datetime.timedelta(days=1), limit=case['limit'])
         order = ['OpX', 'Op', 'Op_X']
-        studio = PlaybackStudio(order, Tuner(), env.tr, lookup_properties=props)
+        studio = PlaybackStudio(order, Tuner(), env.tr, lookup_properties=props, compare_execution_config=cfg)
         exp_cats = order
         exp_ids = {c: by_cat[c] for c in order}
     viols = []
@@ -156,6 +168,10 @@ def _run(case, box):
         try:
             comp = next(gens[c])
         except StopIteration:
+            return False
+        except Exception as e:
+            viols.append(viol('category-run-aborted:%s' % type(e).__name__, 'the comparison run of category %s was aborted by an exception; its remaining recordings are never replayed' % c,
+                              'one verdict per recording', repr(e)))
             return False
         got_ids[c].append((comp.recording_id, comp.comparator_status.equality_status.name, comp.comparator_status.message))
         states.append(repr(sorted((k, len(v)) for k, v in got_ids.items())))
@@ -196,6 +212,10 @@ def _run(case, box):
             foreign = [g[0] for g in got_ids[c] if g[0] not in by_cat[c]]
             viols.append(viol('category-results:%s' % ('foreign-recordings' if foreign else 'missing-or-repeated'), 'comparisons of category %s (selection %s)' % (c, case['sel']), exp, [g[0] for g in got_ids[c]]))
         for rid, status, msg in got_ids[c]:
+            if rid == bad_id:
+                if status != 'EqualizerFailure':
+                    viols.append(viol('verdict:bad-extraction-not-a-failure', 'a recording whose extraction fails gets a framework-failure verdict', 'EqualizerFailure', status))
+                continue
             if status != 'Equal' or msg != c:
                 viols.append(viol('verdict:%s' % status, 'recording %s of category %s compared under tuning %r with verdict %s' % (rid, c, msg, status), ('Equal', c), (status, msg)))
                 break
